@@ -352,6 +352,36 @@ func callMethod(target any, name string, ctxForm bool, args []any) (results []re
 	return m.Call(in), true
 }
 
+// callMethodCtx calls an already resolved Ctx method with the given context.
+func callMethodCtx(m reflect.Value, ctx context.Context, args []any) ([]reflect.Value, bool) {
+	if !m.IsValid() {
+		return nil, false
+	}
+	mt := m.Type()
+	in := []reflect.Value{reflect.ValueOf(ctx)}
+	for _, a := range args {
+		pi := len(in)
+		var pt reflect.Type
+		if mt.IsVariadic() && pi >= mt.NumIn()-1 {
+			pt = mt.In(mt.NumIn() - 1).Elem()
+		} else if pi < mt.NumIn() {
+			pt = mt.In(pi)
+		} else {
+			return nil, false
+		}
+		v := reflect.ValueOf(a)
+		if pt.Kind() != reflect.Interface && !v.Type().AssignableTo(pt) {
+			if v.Type().ConvertibleTo(pt) && v.Kind() != reflect.String {
+				v = v.Convert(pt)
+			} else {
+				return nil, false
+			}
+		}
+		in = append(in, v)
+	}
+	return m.Call(in), true
+}
+
 // canonResult renders the non-error results of a wrapper call.
 func canonResult(conv string, res []reflect.Value) (string, error) {
 	var err error
